@@ -263,6 +263,40 @@ def h_points_per_interval(h):
         h.close(bounds[k][1], hi, "upper-boundary-is-midpoint-to-next-interval")
 
 
+def h_points_ties(h):
+    """PointsPerIntervalSlicer with tied observations (which of two equal values goes where is free): still every
+    observation in exactly one interval, the documented chunk sizes, chunks ordered by value, own-member references"""
+    I = shim.mod("intervals")
+    n, npts, last_full = h.cfg["n"], h.cfg["n_points"], h.cfg["last_full"]
+    base = [h.real(f"d{i}", 0.0, 10.0) for i in range(n)]
+    h.distinct(base[: n - len(h.cfg["ties"])], 0.01)
+    vals = list(base)
+    for k, (dst, src) in enumerate(h.cfg["ties"]):      # vals[dst] is the same value as vals[src]
+        vals[dst] = vals[src]
+    data = h.arr(vals)
+    s = I.PointsPerIntervalSlicer(npts, last_full=last_full, min_n_points=1, min_n_intervals=1,
+                                  reference=(lambda a: a.sum() / len(a)))
+    masks, refs, bounds = s.slice_(data)
+    h.reach()
+    rem = n % npts
+    sizes = ([rem] + [npts] * (n // npts)) if (rem and last_full) else ([npts] * (n // npts) + ([rem] if rem else []))
+    h.check(len(masks) == len(sizes), "number-of-intervals", f"{len(masks)} vs {len(sizes)}")
+    member = [[bool(masks[k][i]) for i in range(n)] for k in range(len(masks))]
+    for i in range(n):
+        h.check(sum(1 for k in range(len(masks)) if member[k][i]) == 1, "each-observation-in-exactly-one-interval",
+                f"observation {i} is in {sum(1 for k in range(len(masks)) if member[k][i])} intervals")
+    for k in range(min(len(sizes), len(masks))):
+        h.check(sum(member[k]) == sizes[k], "interval-sizes-as-documented", f"interval {k}: {sum(member[k])} vs {sizes[k]}")
+        mem = [vals[i] for i in range(n) if member[k][i]]
+        if mem:
+            h.close(refs[k], sum(mem) / len(mem), "reference-is-callable-of-own-members")
+        if k + 1 < len(masks):
+            nxt = [vals[i] for i in range(n) if member[k + 1][i]]
+            for a_ in mem:
+                for b_ in nxt:
+                    h.check(a_ <= b_, "intervals-ordered-by-value")
+
+
 def h_drop_and_references(h):
     """exactly the intervals with fewer than min_n_points members are dropped (order kept); references; RuntimeError"""
     I = shim.mod("intervals")
@@ -353,6 +387,11 @@ def obligations(tier):
             for lf in (True, False):
                 yield ("points_per_interval", h_points_per_interval, {"n": n, "n_points": npts, "last_full": lf},
                        {"max_paths": 5000})
+    for n, npts, ties in ((4, 2, [(3, 0)]), (4, 2, [(3, 1)]), (5, 2, [(4, 2)]), (5, 2, [(4, 0), (3, 1)]), (4, 3, [(3, 2)]),
+                          (5, 2, [(4, 1), (3, 1)])):
+        for lf in (True, False):
+            yield ("points_ties", h_points_ties, {"n": n, "n_points": npts, "last_full": lf, "ties": ties},
+                   {"max_paths": 5000})
     layouts = [[0, 0, 1, 3], [2, 0, 0, 0], [1, 3, 3, 1], [0, 1, 2, 3]]
     for kind in ("width", "number"):
         for ref in ("center", "left", "right", "callable"):
